@@ -10,6 +10,7 @@ import (
 	"net/http"
 	"strings"
 	"sync"
+	"sync/atomic"
 	"time"
 
 	"verif/cluster"
@@ -84,6 +85,8 @@ func runC19PrimaryLost(c *core.Case, k int) {
 	// the replica's application and proxy
 	var hits int
 	var hmu sync.Mutex
+	var foreign atomic.Int64
+	nonce := fmt.Sprintf("c19lost-%d-%d-%d", c.Index, k, c.Rng.Uint64())
 	ln, err := net.Listen("tcp", "127.0.0.1:0")
 	if err != nil {
 		c.Inconclusive(err.Error())
@@ -92,9 +95,16 @@ func runC19PrimaryLost(c *core.Case, k int) {
 	defer ln.Close()
 	go func() {
 		_ = http.Serve(ln, http.HandlerFunc(func(rw http.ResponseWriter, r *http.Request) {
-			hmu.Lock()
-			hits++
-			hmu.Unlock()
+			// (only this case's own requests count: the port may have belonged to
+			// an earlier case's application, and a late request of that case's
+			// clients can still arrive here)
+			if r.Header.Get("X-Verif-Case") == nonce {
+				hmu.Lock()
+				hits++
+				hmu.Unlock()
+			} else {
+				foreign.Add(1)
+			}
 			_, _ = io.WriteString(rw, "ok")
 		}))
 	}()
@@ -107,6 +117,7 @@ func runC19PrimaryLost(c *core.Case, k int) {
 	hc := &http.Client{Timeout: 10 * time.Second, CheckRedirect: func(*http.Request, []*http.Request) error { return http.ErrUseLastResponse }}
 	post := func() (int, string, error) {
 		req, _ := http.NewRequest("POST", fmt.Sprintf("http://127.0.0.1:%d/items/1", proxy.Port()), strings.NewReader("x"))
+		req.Header.Set("X-Verif-Case", nonce)
 		resp, err := hc.Do(req)
 		if err != nil {
 			return 0, "", err
@@ -145,6 +156,7 @@ func runC19PrimaryLost(c *core.Case, k int) {
 	hmu.Lock()
 	h := hits
 	hmu.Unlock()
+	c.Count("lost_foreign_requests_ignored", int(foreign.Load()))
 	if h > 0 {
 		c.Violate("C19/write-ran-on-replica", "a write reached the replica's application", detail)
 		return
